@@ -673,6 +673,14 @@ func (e *testEnv) monitorCookies(req *http.Request, v *respView) {
 			p := e.opts.Cookie.Path
 			e.c.emit(fmt.Sprintf("%s %s %s %s %s %s", hx(c.Domain), hx(c.Path), bs(c.Secure), bs(c.HttpOnly), hx(sameSiteName(c.SameSite)), ma),
 				"mkcookie", hxl(e.opts.Cookie.Domains), hx(p), bs(e.opts.Cookie.Secure), bs(e.opts.Cookie.HTTPOnly), hx(e.opts.Cookie.SameSite), hx(host), hx(c.Name), i64s(exp))
+			// ... and from what the OPERATOR wrote (domains in the configured order, attributes from the suite's intent): validation's
+			// sort and everything between the configuration and the cookie is on the model's side of the comparison
+			cfgPath := e.cfg.CookiePath
+			if cfgPath == "" {
+				cfgPath = "/"
+			}
+			e.c.emit(fmt.Sprintf("%s %s %s %s %s %s", hx(c.Domain), hx(c.Path), bs(c.Secure), bs(c.HttpOnly), hx(sameSiteName(c.SameSite)), ma),
+				"mkcookie-cfg", hxl(e.cfg.CookieDomains), hx(cfgPath), bs(e.cfg.CookieSecure), bs(e.cfg.CookieHTTPOnly), hx(strings.ToLower(e.cfg.CookieSameSite)), hx(host), hx(c.Name), i64s(exp))
 		}
 		if bad != "" {
 			e.c.violation("C18", "Set-Cookie lacks configured attributes: "+bad, map[string]interface{}{
